@@ -9,10 +9,10 @@ CONSTANTS
   PROFILE = "debug"
   ROWCAP = 50
   BLOCKCAP = 100
-  MAXW = 3
+  MAXW = 2
   MAXH = 3
   DEPTH = 2
   OOB = TRUE
   REORIENT = TRUE
   BIGSET = FALSE
-  SAMPLE = 0
+  SAMPLE = 61
